@@ -28,6 +28,7 @@ import (
 	"net"
 	"net/netip"
 	"os"
+	"reflect"
 	"strconv"
 	"time"
 
@@ -86,6 +87,8 @@ type vector struct {
 	B   []int  `json:"b"`
 	E   []int  `json:"e"`
 	Pre string `json:"pre"`
+	FB  int    `json:"fb"`
+	FM  int    `json:"fm"`
 }
 
 type failure struct {
@@ -106,6 +109,15 @@ type summary struct {
 	Random         int            `json:"random_strings"`
 	RandomLens     int            `json:"random_lengths"`
 	Splits         int            `json:"split_checks"`
+	FoldBE         map[string]int `json:"vectors_by_folds_needed_be"`
+	FoldLE         map[string]int `json:"vectors_by_folds_needed_le"`
+	Hook           bool           `json:"hook_icmp_send_present"`
+	Crit6Sent      int            `json:"crit6_sent_through_hook"`
+	Oversize       int            `json:"directed_configs_skipped_oversize"`
+	Directed       int            `json:"directed_sends"`
+	DirectedByLen  map[string]int `json:"directed_by_icmp6_length"`
+	DirectedHit    int            `json:"directed_targets_reached"`
+	FullSweeps     map[string]int `json:"full_16bit_sweeps"`
 	ConcHeaders    int            `json:"concurrent_headers"`
 	ConcFrames     int            `json:"concurrent_frames"`
 	HdrSweep       int            `json:"hdr_field_sweep"`
@@ -121,7 +133,8 @@ type summary struct {
 }
 
 var (
-	sum      = summary{ByKind: map[string]int{}, LibByOp: map[string]int{}, FramesByFn: map[string]int{}, Refused: map[string]int{}}
+	sum = summary{ByKind: map[string]int{}, LibByOp: map[string]int{}, FramesByFn: map[string]int{}, Refused: map[string]int{},
+		FoldBE: map[string]int{}, FoldLE: map[string]int{}, DirectedByLen: map[string]int{}, FullSweeps: map[string]int{}}
 	perKey   = map[string]int{}
 	distinct = map[uint64]struct{}{}
 )
@@ -288,8 +301,11 @@ func checkFrame(f []byte) (problem string, msg []byte, stored [2]byte, v6 bool, 
 // session
 
 type sess struct {
-	s    *packet.Session
-	conn *vh.RecConn
+	s      *packet.Session
+	conn   *vh.RecConn
+	hook6  reflect.Value // Session.VerifICMP6SendPacket when /repo carries hooks/cksumlog_icmp_send.patch, else invalid
+	hook4  reflect.Value
+	quietH bool // do not record sends in the history (full sweeps)
 }
 
 func newSess() (*sess, error) {
@@ -302,7 +318,51 @@ func newSess() (*sess, error) {
 	if err != nil {
 		return nil, err
 	}
-	return &sess{s: s, conn: conn}, nil
+	x := &sess{s: s, conn: conn}
+	x.hook6 = reflect.ValueOf(s).MethodByName("VerifICMP6SendPacket")
+	x.hook4 = reflect.ValueOf(s).MethodByName("VerifICMP4SendPacket")
+	return x, nil
+}
+
+// raw hands a complete ICMP message (checksum field zero) to icmp6SendPacket / icmp4SendPacket through the verif hook.
+func (x *sess) raw(v6 bool, src, dst packet.Addr, msg []byte) (frames [][]byte, err error, panicked interface{}) {
+	x.conn.Take()
+	func() {
+		defer func() { panicked = recover() }()
+		h := x.hook4
+		if v6 {
+			h = x.hook6
+		}
+		out := h.Call([]reflect.Value{reflect.ValueOf(src), reflect.ValueOf(dst), reflect.ValueOf(append([]byte{}, msg...))})
+		if e, ok := out[0].Interface().(error); ok && e != nil {
+			err = e
+		}
+	}()
+	return x.conn.Take(), err, panicked
+}
+
+// rawCase: one message through the hook; the emitted frame must verify and, when exp is given, carry those bytes.
+func rawCase(x *sess, v6 bool, src, dst packet.Addr, msg []byte, exp *[2]byte) (bool, string) {
+	frames, err, pan := x.raw(v6, src, dst, msg)
+	if pan != nil {
+		sum.Panics++
+		return false, fmt.Sprintf("panic: %v", pan)
+	}
+	if err != nil || len(frames) == 0 {
+		return true, ""
+	}
+	for _, f := range frames {
+		problem, _, stored, _, _, _ := checkFrame(f)
+		if problem != "" {
+			return false, fmt.Sprintf("%s (ICMP length %d)", problem, len(msg))
+		}
+		sum.Frames++
+		sum.FramesByFn["hook"]++
+		if exp != nil && stored != *exp {
+			return false, fmt.Sprintf("stored ICMP checksum %02x%02x, specification expects %02x%02x", stored[0], stored[1], exp[0], exp[1])
+		}
+	}
+	return true, ""
 }
 
 func (x *sess) close() { go x.s.Close() }
@@ -327,7 +387,12 @@ func historyCopy() []map[string]interface{} {
 
 // send runs one send function under recover and returns the frames it emitted.
 func (x *sess) send(fn string, src, dst, target packet.Addr, id, seq uint16) (frames [][]byte, err error, panicked interface{}) {
-	history = append(history, sendRec(fn, src, dst, target, id, seq))
+	if !x.quietH {
+		history = append(history, sendRec(fn, src, dst, target, id, seq))
+		if len(history) > 4*historyCap {
+			history = append([]map[string]interface{}{}, history[len(history)-historyCap:]...)
+		}
+	}
 	x.conn.Take()
 	func() {
 		defer func() { panicked = recover() }()
@@ -449,6 +514,8 @@ func stage12(path string, x *sess) error {
 		e := [2]byte{byte(v.E[0]), byte(v.E[1])}
 		sum.Vectors++
 		sum.ByKind[v.K]++
+		sum.FoldBE[strconv.Itoa(v.FB)]++
+		sum.FoldLE[strconv.Itoa(v.FM)]++
 		note(b)
 		if len(sum.Samples) < 6 && (sum.Vectors%9973 == 1 || v.K == "echo6" && sum.ByKind[v.K] == 1 || v.K == "hdr" && sum.ByKind[v.K] == 1) {
 			sum.Samples = append(sum.Samples, map[string]interface{}{"kind": v.K, "bytes": hx(b), "expected_stored": hx(e[:])})
@@ -542,6 +609,18 @@ func stage12(path string, x *sess) error {
 						fail("C15:send:ICMP4SendEchoRequest", what, map[string]interface{}{"op": "send", "fn": "ICMP4SendEchoRequest",
 							"src": addrJSON(src), "dst": addrJSON(dst), "id": id, "seq": seq, "msg": hx(b), "e": hx(e[:])})
 					}
+				}
+			}
+		case "crit6":
+			if x != nil && x.hook6.IsValid() {
+				src := packet.Addr{MAC: vh.OwnMAC, IP: netip.AddrFrom16(*(*[16]byte)(b[0:16]))}
+				dst := packet.Addr{MAC: vh.RouterMAC, IP: netip.AddrFrom16(*(*[16]byte)(b[16:32]))}
+				msg := b[40:]
+				sum.LibChecks++
+				sum.LibByOp["VerifICMP6SendPacket"]++
+				sum.Crit6Sent++
+				if ok, what := rawCase(x, true, src, dst, msg, &e); !ok {
+					fail("C15:send:icmp6SendPacket", what, map[string]interface{}{"op": "raw6", "src": addrJSON(src), "dst": addrJSON(dst), "msg": hx(msg), "e": hx(e[:])})
 				}
 			}
 		case "pair6":
@@ -832,6 +911,234 @@ func stageConc(x *sess, seed int64, thorough bool) (bad int, first string, badFr
 	return bad, first, badFrames, firstFrame
 }
 
+// ---------------------------------------------------------------------------------------------
+// stage 5: directed search.  The one's-complement sum of a message is linear in any aligned 16-bit word of it, so the
+// validated transcription can *solve* for the value of a free word (echo id, a word of an announced prefix, a word of
+// the target address) that makes the total sum of pseudo-header + message any prescribed value (Cksum.tla Sub1c).
+// The prescribed totals are the ones on which an implementation that groups the terms differently and folds once
+// too few goes wrong (Cksum.tla FoldsNeeded / FoldClasses): tiny sums, negative zero, their byte swaps.  This is done
+// for ICMPv6 length classes far beyond the usual messages: router advertisements with 1..44 prefixes and 0..3 RDNSS
+// servers (lengths 80..1496, low length byte over the whole range), and -- through the verif hook -- echo requests of
+// ICMPv6 length 198, 199, 255, 256, 454, 511, 1000, 1400, maximal.
+
+var critTotals = []uint16{0x0001, 0x0002, 0x0003, 0x00ff, 0x0100, 0x0200, 0x0300, 0x7fff, 0x8000, 0xfcff, 0xfdff, 0xfeff, 0xfffc, 0xfffd, 0xfffe, 0xffff}
+
+type raCfg struct {
+	prefixes, rdnss int
+	w               uint16 // bytes 4,5 of the last prefix
+	dst             packet.Addr
+}
+
+func (x *sess) sendRA(c raCfg) (frame []byte, err error, pan interface{}) {
+	x.conn.Take()
+	func() {
+		defer func() { pan = recover() }()
+		pfx := make([]packet.PrefixInformation, c.prefixes)
+		for i := range pfx {
+			ip := net.ParseIP("2001:db8:0:1::")
+			ip[6], ip[7] = byte((i+1)>>8), byte(i+1)
+			pfx[i] = packet.PrefixInformation{PrefixLength: 64, Prefix: ip}
+		}
+		last := pfx[len(pfx)-1].Prefix
+		last[4], last[5] = byte(c.w>>8), byte(c.w)
+		var rd *packet.RecursiveDNSServer
+		if c.rdnss > 0 {
+			rd = &packet.RecursiveDNSServer{Lifetime: 10 * time.Minute}
+			for i := 0; i < c.rdnss; i++ {
+				rd.Servers = append(rd.Servers, net.ParseIP(fmt.Sprintf("fe80::53:%x", i+1)))
+			}
+		}
+		err = x.s.ICMP6SendRouterAdvertisement(pfx, rd, c.dst)
+	}()
+	fs := x.conn.Take()
+	if len(fs) > 0 {
+		frame = fs[0]
+	}
+	return
+}
+
+// totalSum: one's-complement sum (big-endian words) of pseudo-header + ICMPv6 message of an emitted frame with the
+// checksum field taken as zero; wOff = offset of a given word inside the message.
+func totalSum6(frame []byte) (base uint16, msg []byte, src, dst netip.Addr, ok bool) {
+	if len(frame) < 54+4 || binary.BigEndian.Uint16(frame[12:14]) != 0x86dd || frame[14+6] != 58 {
+		return 0, nil, src, dst, false
+	}
+	ip := frame[14:]
+	pl := int(binary.BigEndian.Uint16(ip[4:6]))
+	if 40+pl > len(ip) {
+		return 0, nil, src, dst, false
+	}
+	src = netip.AddrFrom16(*(*[16]byte)(ip[8:24]))
+	dst = netip.AddrFrom16(*(*[16]byte)(ip[24:40]))
+	msg = append([]byte{}, ip[40:40+pl]...)
+	msg[2], msg[3] = 0, 0
+	return refSum(append(pseudo6(src, dst, pl), msg...)), msg, src, dst, true
+}
+
+func sub1c(t, y uint16) uint16 { return add1c(t, 65535-y) }
+
+func raFail(c raCfg, what string) {
+	fail("C15:send:ICMP6SendRouterAdvertisement", what, map[string]interface{}{"op": "ra", "prefixes": c.prefixes, "rdnss": c.rdnss, "w": c.w, "dst": addrJSON(c.dst)})
+}
+
+// raOne sends one RA and judges the frame. Returns the total sum (checksum field zero) when the frame is usable.
+func raOne(x *sess, c raCfg) (total uint16, ok bool) {
+	f, err, pan := x.sendRA(c)
+	if pan != nil {
+		sum.Panics++
+		raFail(c, fmt.Sprintf("panic: %v", pan))
+		return 0, false
+	}
+	if err != nil || f == nil {
+		sum.Refused["ICMP6SendRouterAdvertisement"]++
+		return 0, false
+	}
+	total, msg, _, _, good := totalSum6(f)
+	if !good {
+		raFail(c, "emitted frame is not an ICMPv6 packet")
+		return 0, false
+	}
+	sum.Directed++
+	sum.DirectedByLen[strconv.Itoa(len(msg))]++
+	if problem, _, _, _, _, _ := checkFrame(f); problem != "" {
+		raFail(c, fmt.Sprintf("%s (router advertisement with %d prefixes, %d RDNSS servers, ICMPv6 length %d, prefix word %#04x, total sum %#04x)",
+			problem, c.prefixes, c.rdnss, len(msg), c.w, total))
+		return total, false
+	}
+	sum.Frames++
+	sum.FramesByFn["ICMP6SendRouterAdvertisement"]++
+	return total, true
+}
+
+func stage5(x *sess, rng *rand.Rand, thorough bool) {
+	x.quietH = true
+	defer func() { x.quietH = false }()
+	dsts := []packet.Addr{packet.IP6AllNodesAddr, {MAC: vh.RouterMAC, IP: netip.MustParseAddr("fe80::ffff:ffff:ffff:fffe")}}
+	counts := []int{1, 2, 3, 4, 5, 6, 7, 8, 12, 13, 14, 15, 21, 29, 30, 44}
+	for _, k := range counts {
+		for m := 0; m <= 3; m++ {
+			// 16 header+body, 32 per prefix, 8+16m RDNSS, 16 DNSSL, 8 MTU, 8 SLLA; an Ethernet frame carries at most 1460
+			// bytes of ICMPv6 (beyond that icmp6SendPacket ignores ErrPayloadTooBig and fails on a nil packet: not a
+			// checksum matter, the message is never completed)
+			if icmpLen := 16 + 32*k + 32; icmpLen+map[bool]int{false: 0, true: 8 + 16*m}[m > 0] > 1460 {
+				sum.Oversize++
+				continue
+			}
+			for _, dst := range dsts {
+				c := raCfg{prefixes: k, rdnss: m, w: 0, dst: dst}
+				base, ok := raOne(x, c)
+				if !ok {
+					continue
+				}
+				for _, t := range critTotals {
+					for _, dw := range []uint16{0, 1, 0xffff} {
+						c.w = sub1c(t, base) + dw
+						if got, ok := raOne(x, c); ok && dw == 0 && got == t {
+							sum.DirectedHit++
+						}
+					}
+				}
+			}
+		}
+	}
+	// echo requests of long and odd ICMPv6 lengths through the hook, id solved for every critical total
+	if x.hook6.IsValid() {
+		sum.Hook = true
+		src := packet.Addr{MAC: vh.OwnMAC, IP: vh.HostLLA}
+		for _, n := range []int{23, 198, 199, 200, 208, 255, 256, 454, 511, 1000, 1400, 1446} {
+			for _, dst := range []packet.Addr{{MAC: vh.RouterMAC, IP: netip.MustParseAddr("fe80::1")}, {MAC: vh.RouterMAC, IP: netip.MustParseAddr("2001:db8:ffff:ffff:ffff:ffff:ffff:fffe")}} {
+				data := make([]byte, n-8)
+				rng.Read(data)
+				mk := func(id uint16) []byte {
+					p := make([]byte, n)
+					packet.EncodeICMPEcho(p, packet.ICMP6TypeEchoRequest, 0, id, 1, data)
+					return p
+				}
+				base := refSum(append(pseudo6(src.IP, dst.IP, n), mk(0)...))
+				for _, t := range critTotals {
+					for _, dw := range []uint16{0, 1, 0xffff} {
+						id := sub1c(t, base) + dw
+						msg := mk(id)
+						sum.Directed++
+						sum.DirectedByLen[strconv.Itoa(n)]++
+						if dw == 0 && refSum(append(pseudo6(src.IP, dst.IP, n), msg...)) == t {
+							sum.DirectedHit++
+						}
+						if ok, what := rawCase(x, true, src, dst, msg, nil); !ok {
+							fail("C15:send:icmp6SendPacket", what, map[string]interface{}{"op": "raw6", "src": addrJSON(src), "dst": addrJSON(dst), "msg": hx(msg)})
+						}
+					}
+				}
+			}
+		}
+	}
+	// the same for ICMPv4 echo requests through icmp4SendPacket (no pseudo-header: the message alone carries the sum)
+	if x.hook4.IsValid() {
+		src := packet.Addr{MAC: vh.OwnMAC, IP: netip.MustParseAddr("192.168.0.129")}
+		dst := packet.Addr{MAC: vh.RouterMAC, IP: netip.MustParseAddr("255.255.255.254")}
+		for _, n := range []int{8, 9, 23, 198, 199, 255, 256, 511, 1000, 1472} {
+			data := make([]byte, n-8)
+			rng.Read(data)
+			mk := func(id uint16) []byte {
+				p := make([]byte, n)
+				packet.EncodeICMPEcho(p, packet.ICMP4TypeEchoRequest, 0, id, 1, data)
+				return p
+			}
+			base := refSum(mk(0))
+			for _, t := range critTotals {
+				for _, dw := range []uint16{0, 1, 0xffff} {
+					msg := mk(sub1c(t, base) + dw)
+					sum.Directed++
+					sum.DirectedByLen["v4:"+strconv.Itoa(n)]++
+					if dw == 0 && refSum(msg) == t {
+						sum.DirectedHit++
+					}
+					if ok, what := rawCase(x, false, src, dst, msg, nil); !ok {
+						fail("C15:send:icmp4SendPacket", what, map[string]interface{}{"op": "raw4", "src": addrJSON(src), "dst": addrJSON(dst), "msg": hx(msg)})
+					}
+				}
+			}
+		}
+	}
+	// full sweeps of one 16-bit word: 5-prefix router advertisement (ICMPv6 length 208); thorough: also 13 prefixes
+	// (464), 1 prefix, and through the hook every id of a 200 byte and a 23 byte echo request
+	sweeps := []raCfg{{prefixes: 5, rdnss: 0, dst: packet.IP6AllNodesAddr}}
+	if thorough {
+		sweeps = append(sweeps, raCfg{prefixes: 13, rdnss: 0, dst: packet.IP6AllNodesAddr}, raCfg{prefixes: 1, rdnss: 1, dst: packet.IP6AllNodesAddr},
+			raCfg{prefixes: 6, rdnss: 2, dst: dsts[1]})
+	}
+	for _, c := range sweeps {
+		for w := 0; w < 65536; w++ {
+			c.w = uint16(w)
+			raOne(x, c)
+		}
+		sum.FullSweeps[fmt.Sprintf("RA %d prefixes %d rdnss", c.prefixes, c.rdnss)] = 65536
+	}
+	if x.hook6.IsValid() {
+		lens := []int{200}
+		if thorough {
+			lens = []int{200, 23, 255, 511}
+		}
+		src := packet.Addr{MAC: vh.OwnMAC, IP: vh.HostLLA}
+		dst := packet.Addr{MAC: vh.RouterMAC, IP: netip.MustParseAddr("fe80::1")}
+		for _, n := range lens {
+			data := make([]byte, n-8)
+			for i := range data {
+				data[i] = byte(i)
+			}
+			for id := 0; id < 65536; id++ {
+				p := make([]byte, n)
+				packet.EncodeICMPEcho(p, packet.ICMP6TypeEchoRequest, 0, uint16(id), 1, data)
+				sum.Directed++
+				if ok, what := rawCase(x, true, src, dst, p, nil); !ok {
+					fail("C15:send:icmp6SendPacket", what, map[string]interface{}{"op": "raw6", "src": addrJSON(src), "dst": addrJSON(dst), "msg": hx(p)})
+				}
+			}
+			sum.FullSweeps[fmt.Sprintf("echo6 length %d", n)] = 65536
+		}
+	}
+}
+
 func stage4(x *sess, rng *rand.Rand, thorough bool) {
 	v6 := []netip.Addr{vh.HostLLA, netip.MustParseAddr("ff02::1"), netip.MustParseAddr("ff02::2"), netip.MustParseAddr("fe80::ffff:ffff:ffff:ffff"),
 		netip.MustParseAddr("2001:db8::ffff:ffff"), netip.MustParseAddr("2001:db8:1:2:3:4:5:6"), netip.MustParseAddr("::1"),
@@ -953,6 +1260,47 @@ func runCase(js string) int {
 				break
 			}
 		}
+	case "ra":
+		x, err := newSess()
+		if err != nil {
+			fmt.Fprintln(os.Stderr, err)
+			return 2
+		}
+		defer x.close()
+		before := len(sum.Failures)
+		raOne(x, raCfg{prefixes: num("prefixes"), rdnss: num("rdnss"), w: uint16(num("w")), dst: addrFromJSON(c["dst"])})
+		if len(sum.Failures) > before {
+			res["reproduced"] = true
+			res["what"] = sum.Failures[len(sum.Failures)-1].What
+		}
+	case "raw6", "raw4":
+		x, err := newSess()
+		if err != nil {
+			fmt.Fprintln(os.Stderr, err)
+			return 2
+		}
+		defer x.close()
+		if str("op") == "raw4" {
+			if !x.hook4.IsValid() {
+				fmt.Fprintln(os.Stderr, "hook VerifICMP4SendPacket absent")
+				return 2
+			}
+			ok, what := rawCase(x, false, addrFromJSON(c["src"]), addrFromJSON(c["dst"]), unhex("msg"), nil)
+			res["reproduced"] = !ok
+			res["what"] = what
+			break
+		}
+		if !x.hook6.IsValid() {
+			fmt.Fprintln(os.Stderr, "hook VerifICMP6SendPacket absent")
+			return 2
+		}
+		var exp *[2]byte
+		if e := unhex("e"); len(e) == 2 {
+			exp = &[2]byte{e[0], e[1]}
+		}
+		ok, what := rawCase(x, true, addrFromJSON(c["src"]), addrFromJSON(c["dst"]), unhex("msg"), exp)
+		res["reproduced"] = !ok
+		res["what"] = what
 	case "pair":
 		x, err := newSess()
 		if err != nil {
@@ -1027,6 +1375,7 @@ func main() {
 	}
 	if len(sum.OracleMismatch) == 0 {
 		stage4(x, rng, thorough)
+		stage5(x, rng, thorough)
 		bad, first, badFrames, firstFrame := stageConc(x, seed, thorough)
 		if bad > 0 {
 			fail("C15:IP4.CalculateChecksum:concurrent", fmt.Sprintf("%d headers wrong under concurrent use of separate buffers; %s", bad, first),
